@@ -190,8 +190,9 @@ def units(w):
         marker = {}
 
         def prepare(world):
-            def hook(it, items, src, n):
+            def hook(it, items, src, n, kw):
                 marker["src"] = src
+                marker["kw"] = {k_: v_ for k_, v_ in kw.items() if v_ is not None}
                 out = PList(list(items))
                 marker["out"] = out
                 return out
@@ -211,6 +212,7 @@ def units(w):
             src = marker.get("src")
             ok = o.kind == "return" and o.value is marker.get("out")
             it.check("post:returns-sorted(host-container)", ok)
+            it.check("post:sorted-by-the-value-order-itself (no key function, not reversed)", not marker.get("kw"), detail=str(list(marker.get("kw", {}))))
             if kind == "set":
                 it.check("post:sorted-over-the-elements", src is c["v"].fields["value"])
             else:
